@@ -81,6 +81,35 @@ def make_flow(desc: Dict[str, Any], grid: Grid) -> torch.Tensor:
     return (f * float(desc.get("amp", 0.5))).to(torch.float64 if desc["dtype"] == "float64" else torch.float32)
 
 
+LAYOUTS = ["contig", "fortran", "spatial_t", "strided", "chlast", "offset"]
+
+
+def layout_tensor(t: torch.Tensor, layout: str) -> torch.Tensor:
+    """Tensor with the values of ``t`` (C, ..., X) in another memory layout: what a caller gets from numpy/nibabel
+    arrays in (x, y, z) order, from slicing, or from channels-last pipelines."""
+    t = t.contiguous()
+    if layout == "fortran":
+        out = torch.from_numpy(np.asfortranarray(t.numpy()))
+    elif layout == "spatial_t":
+        # spatial axes stored in reverse order (x, y, z array viewed as z, y, x), channels outermost
+        perm = [0] + list(range(t.ndim - 1, 0, -1))
+        out = t.permute(*perm).contiguous().permute(*perm)
+    elif layout == "strided":
+        base = torch.zeros(t.shape[:-1] + (t.shape[-1] * 2,), dtype=t.dtype)
+        base[..., ::2] = t
+        out = base[..., ::2]
+    elif layout == "chlast":
+        out = t.movedim(0, -1).contiguous().movedim(-1, 0)
+    elif layout == "offset":
+        base = torch.zeros((t.shape[0] + 1,) + tuple(t.shape[1:]), dtype=t.dtype)
+        base[1:] = t
+        out = base[1:]
+    else:
+        out = t.clone()
+    assert torch.equal(out, t)
+    return out
+
+
 def header_of(grid: Grid) -> Dict[str, np.ndarray]:
     return {
         "size": np.array([int(s) for s in grid.size()]),
@@ -368,14 +397,14 @@ class _Ops:
             flow_t = make_flow(desc, grid)
             if axes in ("cube", "cube_corners"):
                 flow_t = flow_t * 0.05
-            obj = FlowField(flow_t.clone(), grid, Axes(axes))
+            obj = FlowField(layout_tensor(flow_t, op.get("layout", "contig")), grid, Axes(axes))
             expected = cube_vec_to_world(flow_t, grid, axes).numpy().astype(np.dtype(desc["dtype"]))
             entry = "FlowField.write"
             call = lambda: obj.write(arg, compress=compress)
         else:
             arr = make_array(desc)
             expected = arr
-            data = torch.from_numpy(arr.copy())
+            data = layout_tensor(torch.from_numpy(arr.copy()), op.get("layout", "contig"))
             entry = op.get("entry", "Image.write")
             if entry == "write_image":
                 call = lambda: write_image(data, grid, arg, compress=compress)
@@ -428,6 +457,7 @@ class _Ops:
             return out
         rec.files = set(touched) | self.family_existing(name)
         self.rec[name] = rec
+        self.c["probes"]["write_layout:" + str(op.get("layout", "contig"))] += 1
         if before:
             self.c["probes"]["write_onto_nonempty_dir"] += 1
         if any(k.startswith(self.stem_of(name) + ".") and k != name for k in before):
@@ -707,6 +737,7 @@ class _Gen:
                     op["axes"] = rng.choice(["world", "grid", "cube", "cube_corners"])
                 else:
                     op["entry"] = rng.weighted([("Image.write", 3), ("write_image", 2), ("batch_item", 1)])
+                op["layout"] = rng.weighted([("contig", 5)] + [(l, 1) for l in LAYOUTS[1:]])
                 if sc["faults"]["failed_write"] and suffix_of(name) in NATIVE_BYTES and rng.chance(0.25):
                     op["fault"] = {"frac": rng.round(0.0, 1.0, 2)}
             self.last_written = name
@@ -773,6 +804,10 @@ class IoEngine:
         if op.get("form") not in (None, "str"):
             o = dict(op)
             o["form"] = "str"
+            out.append(o)
+        if op.get("layout") not in (None, "contig"):
+            o = dict(op)
+            o["layout"] = "contig"
             out.append(o)
         if op.get("entry") in ("write_image", "batch_item"):
             o = dict(op)
